@@ -1,6 +1,7 @@
 package main
 
 import (
+	"golang.org/x/tools/go/ssa"
 	"os"
 	"sync"
 	"fmt"
@@ -759,6 +760,9 @@ func (c *layoutCtx) fixedEnc(evs []*Event) *FieldLayout {
 			return true
 		}
 		lo, hi := boundsOf(total.Add(ref, -1), armFacts(armS, total, ref))
+		if lo != nil && hi != nil && *lo > *hi {
+			return true // the arm's conditions contradict each other (len(s) < N together with N - len(s) == 0): never taken
+		}
 		return lo != nil && hi != nil && *lo == 0 && *hi == 0
 	}
 	// prefer a reference width that every arm provably has under its own conditions
@@ -956,6 +960,20 @@ func tableName(m *Val) string {
 	m = stripCT(m)
 	if m.Op == "init" && m.Args[0].Op == "global" {
 		return m.Args[0].Name
+	}
+	// the map kept in the (only) field of a table record: named after the record's variable
+	if m.Op == "init" && m.Args[0].Op == "field" && len(m.Args[0].Args) == 1 {
+		base := m.Args[0].Args[0]
+		if base.Op == "init" && len(base.Args) == 1 {
+			base = base.Args[0]
+		}
+		if base.Op == "global" {
+			if g, ok := base.Aux.(*ssa.Global); ok {
+				if sv, isStruct := g.Type().(*types.Pointer).Elem().Underlying().(*types.Struct); isStruct && sv.NumFields() == 1 {
+					return base.Name
+				}
+			}
+		}
 	}
 	return m.Pretty()
 }
@@ -1770,7 +1788,24 @@ func verifyScanGen(loop *Event, W *Val, right bool, bound *Affine, exitConds []C
 			}
 			x = bound.Sym[key]
 		}
-		if x.ID != loop.LoopID || x.Name != lv.Name || bound.C != k {
+		bc := bound.C
+		if x.ID == loop.LoopID && x.Name != lv.Name && len(x.Args) >= 1 {
+			// a second counter that moves in lock-step with the tested one (`start++` beside a range index): the same
+			// variable up to the constant difference of their initial values
+			xs, _ := x.Aux.(int64)
+			xi, okX := x.Args[0].Int64()
+			li, okL := lv.Args[0].Int64()
+			if xs != step || !okX || !okL {
+				return nil, false
+			}
+			if nx2 := arm.Next[x.Name]; nx2 == nil {
+				return nil, false
+			}
+			bc += xi - li
+		} else if x.ID != loop.LoopID || x.Name != lv.Name {
+			return nil, false
+		}
+		if bc != k {
 			return nil, false
 		}
 		switch x.Op {
